@@ -468,7 +468,11 @@ def do_setup():
         if bins is None:
             log("setup: build failed for", cid, err[-2000:])
             bad += 1
-    return 1 if bad else 0
+    # setup only warms the build cache: every check rebuilds what it needs, so a harness that does not build
+    # must not keep the other checks from running
+    if bad:
+        log("setup: %d check(s) did not build (see above); continuing" % bad)
+    return 0
 
 
 def main():
